@@ -196,14 +196,13 @@ def prepare (close : Entry → Entry → Bool) (add : Nat → Nat → Nat) (opt 
     (normOne close add n f m).map fun w => (resolveLayout opt w.isSparse w.rows, w)
 
 /-- `_write_binary*` for one prepared matrix, every `struct.pack` checked.  A sparse input goes through the
-`else` branches: the sparse layouts count words in int64 (`ind` is an int64 array) and fail like the ndarray
-path, the dense layout computes in int32 and wraps (`encColDenseSp`) -/
+`else` branches, whose integers are Python / int64 integers: they fail exactly like the ndarray path -/
 def writeOneWords (add : Nat → Nat → Nat) (e : Endian) (lay : Layout) : WMat → Except WriteErr (List Nat)
   | .nd m => writeMatWords e lay m
   | .sp name form A =>
     if A.rows > 2147483647 ∨ A.ncols > 2147483647 then .error .valueError
     else if form < 2147483648 ∧ A.ncols + 1 < 2147483648 ∧
-        (lay = .dense ∨ (List.range A.ncols).all (fun c => decide (recLen lay A.cplx (denseCol add A c) < 2147483648)) = true)
+        (List.range A.ncols).all (fun c => decide (recLen lay A.cplx (denseCol add A c) < 2147483648)) = true
         then
       match encMatWordsSp add e lay name form A with
       | some ws => .ok ws
